@@ -5,8 +5,12 @@ import XPathV.Lemmas.PredSem2.Truth
 `Frag2` extends `PredSem.Frag` by
 
 * `count(P) op n` and `n op count(P)` (the six comparison operators, `n` a number literal),
+* `not(count(P))` (after the repair of `notFunc`: `not` of a number is `not(boolean(…))`),
 * `contains(S, 'lit')`, `starts-with(S, 'lit')`, `ends-with(S, 'lit')` with
   `S ∈ { 'literal', local-name(), local-name(P), P }`,
+* (after the repair of `containsFunc`/`startwithFunc`/`endwithFunc`, which now read their second
+  argument like the first) `contains(P, Q)`, `contains('lit', Q)` … with a flat path `Q` in *second*
+  position,
 * `local-name() = 'lit'`, `local-name() != 'lit'`, `local-name(P) = 'lit'`, `local-name(P) != 'lit'`,
 * the path form `(P)[b]` (a parenthesised path filtered by a boolean-valued predicate).
 
@@ -79,6 +83,9 @@ inductive Frag2 : Bool → Ast → Prop
   /-- `n op count(P)` -/
   | countL (op lex pfx : String) (p : Ast) : op ∈ cmpOps → Frag2 true p → FlatAny p →
       Frag2 false (.oper op (.num lex) (.call "count" pfx (.acons p .anil)))
+  /-- `not(count(P))` (`count(P) = 0`; the defective `notFunc` answered `false` to every number) -/
+  | notCount (pfx pfx' : String) (p : Ast) : Frag2 true p → FlatAny p →
+      Frag2 false (.call "not" pfx (.acons (.call "count" pfx' (.acons p .anil)) .anil))
   /-- `local-name() = 'lit'`, `local-name() != 'lit'` -/
   | lnCmp (op pfx lit : String) : op ∈ eqOps →
       Frag2 false (.oper op (.call "local-name" pfx .anil) (.str lit))
@@ -99,6 +106,12 @@ inductive Frag2 : Bool → Ast → Prop
   /-- `contains(P, 'lit')` … -/
   | strPath (name pfx : String) (p : Ast) (lit : String) : name ∈ strTests → Frag2 true p →
       FlatAny p → Frag2 false (.call name pfx (.acons p (.acons (.str lit) .anil)))
+  /-- `contains(P, Q)` …: flat paths in both positions -/
+  | strPath2 (name pfx : String) (p q : Ast) : name ∈ strTests → Frag2 true p → FlatAny p →
+      Frag2 true q → FlatAny q → Frag2 false (.call name pfx (.acons p (.acons q .anil)))
+  /-- `contains('lit', Q)` …: a flat path in second position -/
+  | strLitPath (name pfx s : String) (q : Ast) : name ∈ strTests → Frag2 true q → FlatAny q →
+      Frag2 false (.call name pfx (.acons (.str s) (.acons q .anil)))
 
 /-- the extension contains the fragment of `PredSem` -/
 theorem frag2_of_frag (k : Bool) (e : Ast) (h : Frag k e) : Frag2 k e := by
@@ -209,6 +222,9 @@ theorem frag_sem2 {d : Doc} (wf : WF d) (cfg : ECfg) (hns : cfg.nsIface = true) 
     refine fun c hc => ⟨(fun h => nomatch h), fun _ => ?_⟩
     rw [predPlan2_cmp op hop]
     exact predOK_countL d cfg op hop pfx _ p lex c (naive_seqOK wf cfg p hflat c ((ih c hc).1 rfl))
+  | notCount pfx pfx' p _ hflat ih =>
+    exact fun c hc => ⟨(fun h => nomatch h),
+      fun _ => predOK_notCount d cfg pfx pfx' _ p c (naive_seqOK wf cfg p hflat c ((ih c hc).1 rfl))⟩
   | lnCmp op pfx lit hop =>
     refine fun c _ => ⟨(fun h => nomatch h), fun _ => ?_⟩
     rw [predPlan2_cmp op (eqOps_cmpOps hop)]
@@ -233,6 +249,15 @@ theorem frag_sem2 {d : Doc} (wf : WF d) (cfg : ECfg) (hns : cfg.nsIface = true) 
     exact fun c hc => ⟨(fun h => nomatch h),
       fun _ => predOK_strTest d cfg name hn pfx _ p lit c
         (naive_seqOK wf cfg p hflat c ((ih c hc).1 rfl)).strArgOK⟩
+  | strPath2 name pfx p q hn _ hflat _ hflatq ihp ihq =>
+    exact fun c hc => ⟨(fun h => nomatch h),
+      fun _ => predOK_strTest2 d cfg name hn pfx _ _ p q c
+        (naive_seqOK wf cfg p hflat c ((ihp c hc).1 rfl)).strArgOK
+        (naive_seqOK wf cfg q hflatq c ((ihq c hc).1 rfl)).strArgOK⟩
+  | strLitPath name pfx s q hn _ hflatq ihq =>
+    exact fun c hc => ⟨(fun h => nomatch h),
+      fun _ => predOK_strTest2 d cfg name hn pfx _ _ (.str s) q c (strValOK_lit d cfg s c).strArgOK
+        (naive_seqOK wf cfg q hflatq c ((ihq c hc).1 rfl)).strArgOK⟩
 
 /-! ## the statements for naive plans -/
 
